@@ -43,7 +43,9 @@ def unit_monitor(line, out):
     0..ret-1 (nothing if ret <= 0); every call offers the next unsent datagrams, contiguous, <= 20, with the
     right iovec count / address; EINTR is retried with the same vector; the error is reported as documented."""
     w = line.split()
-    count, shape, outs = int(w[1]), int(w[2]), w[3:]
+    count, shape = int(w[1]), int(w[2])
+    badfam = {int(t[1:]) for t in w[3:] if t[0] == "b"}
+    outs = [t for t in w[3:] if t[0] != "b"]
     if not out or not out[-1].startswith("ret "):
         return "no ret line"
     m = re.match(r"ret (-?\d+) left=(\d+)", out[-1])
@@ -58,6 +60,8 @@ def unit_monitor(line, out):
             return f"system call after error {last_err}"
         if (kind == "mmsg") != (count > 1):
             return f"{kind} used for count={count}"
+        if any(taken <= b < taken + 20 for b in badfam):
+            return f"system call although datagram {min(b for b in badfam if b >= taken)} of the next chunk has an unsupported family"
         if len(ents) > 20 or len(ents) != min(20, count - taken) and kind == "mmsg":
             return f"call offers {len(ents)} datagrams with {count - taken} unsent"
         for j, e in enumerate(ents):
@@ -66,6 +70,8 @@ def unit_monitor(line, out):
             i, nb, d = map(int, e.split(":"))
             if i != taken + j:
                 return f"call offers datagram {i} at slot {j} but first unsent is {taken}"
+            if i in badfam:
+                return f"datagram {i} with an unsupported address family was passed to the kernel"
             if nb != 1 + (i + shape) % 3 or d != (i * (shape + 1)) % 3:
                 return f"datagram {i} passed with nbufs={nb} dest={d}"
         if r > 0:
@@ -73,12 +79,17 @@ def unit_monitor(line, out):
             last_err = None
         else:
             last_err = r
+    rejected = (last_err is None or last_err == -4) and taken < count and any(taken <= b < taken + 20 for b in badfam)
     if taken > 0:
         exp = taken
+    elif rejected:
+        exp = -22
     elif last_err is not None:
         exp = -11 if last_err in (-11, -105) else last_err
     else:
         exp = 0
+    if rejected and taken == 0 and ret != -22:
+        return f"BADFAM unsupported address family: returned {ret} instead of UV_EINVAL (nothing sent, no system call failed)"
     if ret != exp:
         return f"returned {ret} but the kernel took {taken} datagrams (0..{taken - 1}), last error {last_err}"
     return None
@@ -87,6 +98,10 @@ def unit_monitor(line, out):
 def unit_cases_systematic(counts):
     for count in counts:
         yield f"v {count} {count % 3}"
+        if count:
+            for b in sorted({0, count - 1, count // 2, min(count - 1, 20), min(count - 1, 19)}):
+                yield f"v {count} {count % 3} b{b}"
+                yield f"v {count} {count % 3} b{b} e4 k7 e11"
         nchunks = (count + 19) // 20
         for j in range(nchunks if count > 1 else 1):
             pre = ["k20"] * j
@@ -98,7 +113,7 @@ def unit_cases_systematic(counts):
 
 def unit_case_random(rng):
     count = rng.choice([rng.range(1, 64), rng.range(1, 64), rng.range(65, 200), rng.range(0, 3)])
-    outs = []
+    outs = [f"b{rng.below(count)}" for _ in range(rng.choice([0, 0, 0, 1, 1, 2]))] if count else []
     for _ in range(rng.range(0, 14)):
         r = rng.below(10)
         outs.append(f"k{rng.range(1, 25)}" if r < 5 else "e4" if r < 7 else "e" + str(rng.choice([11, 105, 13, 1, 90, 0, 101])))
@@ -126,7 +141,11 @@ def run_unit(ctx, uexe, lines, label, monitors_only=False):
     for l, b in zip(lines, blocks):
         ctx.count()
         bad = unit_monitor(l, b)
-        if bad:
+        if bad and bad.startswith("BADFAM"):
+            if ctx.violation("try-send2-bad-family-not-einval", f"uv__udp_sendmsgv ({label}) `{l}`: {bad[7:]}",
+                             {"mode": "unit", "lines": [l]}):
+                return False
+        elif bad:
             if ctx.violation("sendmsgv-batch-not-prefix", f"uv__udp_sendmsgv ({label}) `{shrink_unit(ctx, uexe, l)}`: {bad}",
                              {"mode": "unit", "lines": [shrink_unit(ctx, uexe, l)]}):
                 return False
@@ -141,14 +160,17 @@ def run_unit(ctx, uexe, lines, label, monitors_only=False):
             return False
         ctx.validated()
         w = l.split()
-        if int(w[1]) > 20 and any(t != "k20" for t in w[3:]):
+        if int(w[1]) > 20 and any(t != "k20" for t in w[3:]):  # includes bad-family cases
             ctx.nontrivial("U" + hashlib.sha1("\n".join(b).encode()).hexdigest()[:12])
     return True
 
 
 def shrink_unit(ctx, uexe, line):
     w = line.split()
-    count, shape, outs = int(w[1]), w[2], w[3:]
+    count, shape, outs = int(w[1]), w[2], [t for t in w[3:] if t[0] != "b"]
+    bs = [t for t in w[3:] if t[0] == "b"]
+    if bs:
+        return line
     def bad(c, o):
         l = f"v {c} {shape} " + " ".join(o)
         rc, out, _ = ctx.run(uexe, text=l + "\n")
@@ -200,7 +222,7 @@ def gen_op(rng, h, in_cb, allow_stop):
         return f"try:{dest()}:" + (lens if rng.chance(9, 10) else "-")
     if r < 15:
         cnt = rng.choice([rng.range(1, 5), rng.range(1, 64), rng.range(21, 64), rng.range(65, 200), 0])
-        return f"try2:{cnt}:{good}:{lens}"
+        return f"try2:{cnt}:{3 if rng.chance(1, 8) else good}:{lens}"
     if r < 17:
         return "rstart"
     if r < 18:
@@ -358,6 +380,9 @@ class Mon:
                 self.bad("try-send-overtakes", f"h{i} try_send2 returned {r} with {len(h['owed'])} requests queued")
             if r > cnt:
                 self.bad("try-send2-prefix", f"h{i} try_send2({cnt}) returned {r}")
+            if int(w[2]) == 3 and cnt >= 1 and not h["owed"] and r != -22:
+                self.bad("try-send2-bad-family-not-einval",
+                         f"h{i} try_send2 with an unsupported address family returned {r} instead of UV_EINVAL")
             n = max(r, 0)
             if 0 < n < cnt:
                 self.stats["try2_partial"] += 1
@@ -696,6 +721,7 @@ def run_sim_many(ctx, sexe, cases, agg, monitors_only=False):
 
 CORPUS = [
     # batch beyond one sendmmsg chunk, all succeed / partial results / EINTR / EAGAIN in a later chunk
+    ["new h0 4 0 0", "sout h0 e11", "op h0 try:1:6", "op h0 try2:1:3:6", "op h0 try2:30:3:6,2"],
     ["new h0 4 0 0", "op h0 try2:50:1:8", "sout h0 k20 k5 e4 k3 e11", "op h0 try2:50:1:3,3", "op h0 try2:200:1:6",
      "sout h0 e105", "op h0 try2:30:1:6", "sout h0 e13", "op h0 try2:30:1:6"],
     # queue under back-pressure: 45 requests queued, drained in chunks, error pinned on the head
